@@ -256,6 +256,71 @@ def analyse_serial(model, fv, value):
     return spec, it, sorted(filters)
 
 
+def analyse_serial_generator(ctx, model, fi, fv, value, site):
+    """serial arm written as a local generator function (or any local function with one loop over the items): the items
+    must be analysed independently of one another — the callee's other arguments may not be rebound or mutated inside the loop
+    (a value carried from one item to the next makes the serial result differ from the parallel one, which cannot carry it)"""
+    if not (isinstance(value, ast.Call) and isinstance(value.func, ast.Name) and not value.args and not value.keywords):
+        return None
+    g = [x for x in model.all_functions() if x.parent is fi and x.name == value.func.id]
+    if len(g) != 1 or isinstance(g[0].node, ast.Lambda):
+        return None
+    g = g[0]
+    loops = [n for n in g.node.body if isinstance(n, ast.For)]
+    if len(loops) != 1 or not isinstance(loops[0].target, ast.Name):
+        return None
+    lp = loops[0]
+    item = lp.target.id
+    yields = [n for n in ast.walk(lp) if isinstance(n, (ast.Yield,))]
+    if len(yields) != 1 or yields[0].value is None:
+        return None
+    gv = view(model, g)
+    yv = yields[0].value
+    call = yv if isinstance(yv, ast.Call) else None
+    if isinstance(yv, ast.Name):
+        defs = [s_ for s_ in ast.walk(lp) if isinstance(s_, ast.Assign) and len(s_.targets) == 1 and isinstance(s_.targets[0], ast.Name) and s_.targets[0].id == yv.id]
+        if len(defs) == 1 and isinstance(defs[0].value, ast.Call):
+            call = defs[0].value
+    if call is None:
+        return None
+    # loop-carried state: names (other than the item) read by the call that are written inside the loop
+    body_nodes = [n for st_ in lp.body for n in ast.walk(st_)]
+    carried = []
+    for nm in sorted(names_in(call) - {item}):
+        for n in body_nodes:
+            if isinstance(n, ast.Name) and n.id == nm and isinstance(n.ctx, ast.Store):
+                carried.append((nm, n))
+            if isinstance(n, (ast.Subscript, ast.Attribute)) and isinstance(n.ctx, ast.Store):
+                root = n
+                while isinstance(root, (ast.Subscript, ast.Attribute)):
+                    root = root.value
+                if isinstance(root, ast.Name) and root.id == nm:
+                    carried.append((nm, n))
+            if isinstance(n, ast.Call) and isinstance(n.func, ast.Attribute) and n.func.attr in ("update", "setdefault", "append", "pop", "clear", "extend") and isinstance(n.func.value, ast.Name) and n.func.value.id == nm:
+                carried.append((nm, n))
+    if carried:
+        nm, n = carried[0]
+        ctx.violate("PARMAP", site + ":same-callee", (g, n), f"the serial branch changes `{nm}` inside the loop over the items and passes it to the per-item call `{U(call)[:70]}`: "
+                    "a frame's analysis depends on the frames analysed before it, which the parallel branch (independent workers) cannot reproduce")
+        return "violated"
+    # resolve a loop-invariant `args = dict(kwargs)` style alias of the keyword dictionary
+    spec = spec_from_call(model, gv, call, item)
+    if spec is None:
+        return None
+    pre_alias = {}
+    for st_ in g.node.body:
+        if st_ is lp:
+            break
+        if isinstance(st_, ast.Assign) and len(st_.targets) == 1 and isinstance(st_.targets[0], ast.Name):
+            v = st_.value
+            if isinstance(v, ast.Call) and U(v.func) == "dict" and len(v.args) == 1 and not v.keywords:
+                pre_alias[st_.targets[0].id] = U(v.args[0])
+            elif isinstance(v, ast.Name):
+                pre_alias[st_.targets[0].id] = v.id
+    spec = CallSpec(spec.target, [pre_alias.get(x, x) for x in spec.fixed], {k: pre_alias.get(v, v) for k, v in spec.kws.items()}, [pre_alias.get(x, x) for x in spec.star])
+    return spec, lp.iter, []
+
+
 def analyse_parallel(ctx, model, fv, fi, arm_body, site, pre=()):
     """Find executor.map in the parallel arm. Returns (spec, iter, filters, node) or
     records a violation and returns None."""
@@ -501,6 +566,11 @@ def check_split(ctx: Ctx, fi, ifnode):
     ctx.hold("PARMAP", site + ":same-result", (fi, sassign), f"both branches assign `{pres}`, consumed by the common tail")
     ser = analyse_serial(model, fv, svalue)
     if ser is None:
+        gen = analyse_serial_generator(ctx, model, fi, fv, svalue, site)
+        if gen == "violated":
+            return
+        ser = gen
+    if ser is None:
         ctx.undecided("PARMAP", site + ":same-callee", (fi, sassign), f"serial branch not recognised as applying the callee per item: {U(svalue)[:100]}")
         return
     sspec, siter, sfilters = ser
@@ -573,12 +643,51 @@ def check_pure(ctx: Ctx):
     ctx.extra["call_graph"] = {"functions_reachable": len(reach), "entry_points": ENTRY,
                                "unresolved_attribute_calls": sum(len(cg.unresolved.get(q, [])) for q in reach)}
     n_ok = 0
+    # module-level state: names bound at module level to a stateful object (random generator, iterator/counter) or to a
+    # mutable container.  Using the former, or mutating the latter, from the analysis makes results depend on the history
+    # of the process (and differ between forked workers)
+    from ..astutil import MUTATORS
+
+    mod_state: dict = {}
+    for mod in model.modules.values():
+        for st in mod.tree.body:
+            tgt = None
+            if isinstance(st, ast.Assign) and len(st.targets) == 1 and isinstance(st.targets[0], ast.Name):
+                tgt, val = st.targets[0].id, st.value
+            elif isinstance(st, ast.AnnAssign) and isinstance(st.target, ast.Name) and st.value is not None:
+                tgt, val = st.target.id, st.value
+            if tgt is None:
+                continue
+            kind = None
+            if isinstance(val, ast.Call):
+                nm = model.callee(mod, val) or dotted(val.func) or ""
+                if nm.startswith("numpy.random") or nm.startswith("random.") or nm.endswith("default_rng") or nm.endswith("RandomState") or nm.endswith("Generator"):
+                    kind = "random generator"
+                elif nm in ("itertools.count", "itertools.cycle", "iter"):
+                    kind = "iterator"
+                elif nm in ("list", "dict", "set", "collections.defaultdict", "collections.deque", "collections.OrderedDict", "collections.Counter"):
+                    kind = "container"
+            elif isinstance(val, (ast.List, ast.Dict, ast.Set, ast.ListComp, ast.DictComp, ast.SetComp)):
+                kind = "container"
+            if kind:
+                mod_state[(mod.name, tgt)] = kind
     for q in sorted(reach):
         for fi in model.functions.get(q, []):
             ctx.analysed(fi)
             bad = None
+            local_stores = {x.id for x in ast.walk(fi.node) if isinstance(x, ast.Name) and isinstance(x.ctx, ast.Store)} | set(fi.all_params)
+            for n in ast.walk(fi.node):
+                if isinstance(n, ast.Name) and isinstance(n.ctx, ast.Load) and n.id not in local_stores:
+                    kind = mod_state.get((fi.module.name, n.id))
+                    if kind in ("random generator", "iterator"):
+                        bad = (n, f"uses the module-level {kind} `{n.id}`, whose state advances with every call in the process")
+                        break
+                if isinstance(n, ast.Call) and isinstance(n.func, ast.Attribute) and n.func.attr in MUTATORS and isinstance(n.func.value, ast.Name) \
+                        and n.func.value.id not in local_stores and mod_state.get((fi.module.name, n.func.value.id)) == "container":
+                    bad = (n, f"mutates the module-level container `{n.func.value.id}`")
+                    break
             a = fi.node.args
-            for d in list(a.defaults) + [x for x in a.kw_defaults if x is not None]:
+            for d in ([] if bad else list(a.defaults) + [x for x in a.kw_defaults if x is not None]):
                 if isinstance(d, (ast.List, ast.Dict, ast.Set)) or (isinstance(d, ast.Call) and dotted(d.func) in ("list", "dict", "set")):
                     bad = (d, "has a mutable default argument (state shared between calls)")
             for n in ast.walk(fi.node):
